@@ -8,6 +8,7 @@ pub mod cqlab;
 pub mod driver;
 pub mod lab;
 pub mod rtlab;
+pub mod threadlab;
 
 pub use driver::{run_property, Ctx, Property, Tier};
 pub use serde_json;
